@@ -288,11 +288,11 @@ pub fn batch(out: &str, tier: &str, seed: u64) -> Value {
         plans.push(Plan { hand: true, kinds: vec!["h_ok", k, "h_ok", k, "h_ok"], senders: 1 });
         plans.push(Plan { hand: true, kinds: vec![k, "h_ok"], senders: 2 });
     }
-    let nrand = if tier == "thorough" { 3000 } else { 400 };
+    let nrand = if tier == "thorough" { 6000 } else { 400 };
     for i in 0..nrand {
         plans.push(rand_plan(&mut rng, i % 3 == 0));
     }
-    let per = if tier == "thorough" { 4 } else { 2 };
+    let per = if tier == "thorough" { 6 } else { 2 };
     for p in &plans {
         for _ in 0..per {
             let mut ex = Explorer::new(Mode::Random, rng.next());
@@ -346,7 +346,7 @@ pub fn one_run_tl(plan: &Plan, spawner: &ractor::thread_local::ThreadLocalActorS
             }
             // wait (real time, bounded) until the actor has dealt with it: handler finished, dropped, or actor gone
             let mut settled = !r.is_ok();
-            for _ in 0..400 {
+            for _ in 0..3000 {
                 all.extend(verif::take_events());
                 let taken = all.iter().filter(|e| e.a == "port.msg" && e.obj == cell.get_id().pid()).count();
                 let exits = all.iter().filter(|e| e.a == "obs.cb_exit" && e.kv.iter().any(|(k, v)| k == "k" && *v == Val::S("handle".into()))).count();
